@@ -40,6 +40,7 @@ struct SetIOp {
   int cmpMode = 1;
   int fkind = F_NONE, fk = 0;
   bool toSelf = false;        // extract+insert(node) back into the same set
+  unsigned probeWidth = 0;    // heterogeneous lookup: 0 = a key probe, w > 0 = a coarse probe equivalent to the keys [key, key + w]
 };
 
 struct CmpUse {
